@@ -294,6 +294,7 @@ func RunCheck(p *Program, cfg *CheckConfig, seed int) int {
 	solverTime := 0.0
 	var samples []map[string]interface{}
 	var failures []*OblResult
+	var slowest []slowObl
 	var engineErrors []string
 	notes := map[string]bool{}
 	var fnNames []string
@@ -325,6 +326,7 @@ func RunCheck(p *Program, cfg *CheckConfig, seed int) int {
 			if r.OK {
 				discharged++
 				byBackend[r.Res.Solver]++
+				slowest = append(slowest, slowObl{r.Obl.Name, r.Res.Solver, r.Res.Time})
 			} else {
 				failures = append(failures, r)
 			}
@@ -407,10 +409,22 @@ func RunCheck(p *Program, cfg *CheckConfig, seed int) int {
 	}
 	assumptions = append(assumptions, p.undischargedPreconditions(fns)...)
 	sort.Strings(fnNames)
+	// stability margin: the discharged obligations that came closest to the time limit
+	sort.Slice(slowest, func(i, j int) bool { return slowest[i].t > slowest[j].t })
+	var slowList []map[string]interface{}
+	for i, so := range slowest {
+		if i >= 5 {
+			break
+		}
+		slowList = append(slowList, map[string]interface{}{"obligation": so.name, "solver": so.solver, "time_s": round3(so.t)})
+		if os.Getenv("LHV_SLOW") != "" && so.t > 2 {
+			fmt.Printf("SLOW: %s %.2fs %s\n", so.name, so.t, so.solver)
+		}
+	}
 	ev := Evidence{PropertyID: cfg.Property, Tier: cfg.Tier, Seed: seed, Level: "proof", WallS: round3(time.Since(start).Seconds()), Violations: violations,
 		Assumptions: assumptions,
 		Coverage: map[string]interface{}{
-			"obligations": total, "discharged": discharged,
+			"obligations": total, "discharged": discharged, "slowest_discharged": slowList,
 			"discharged_by_solver": discharged, "known_findings_hit": known,
 			"checker_cmd":  fmt.Sprintf("lhv check --property %s --tier %s (z3-new/z3/cvc5 raced per obligation, timeout %ds)", cfg.Property, cfg.Tier, cfg.Timeout),
 			"trusted_base": []string{"golang.org/x/tools/go/ssa v0.29.0 (SSA construction)", "go/types", "z3 5.1.0", "z3 4.8.12", "cvc5 1.0.3", "lhv VC generator (/verif/internal/engine)"},
@@ -555,4 +569,9 @@ func (p *Program) undischargedPreconditions(fns []*ssa.Function) []string {
 		}
 	}
 	return out
+}
+
+type slowObl struct {
+	name, solver string
+	t            float64
 }
